@@ -25,7 +25,7 @@ func cartConfigs() []cartConfig {
 	var out []cartConfig
 	out = append(out, cartConfig{"rom", 0x00, 0, 0})
 	for rc := uint8(0); rc <= 6; rc++ {
-		for _, ram := range []uint8{0, 2, 3} {
+		for _, ram := range []uint8{0, 1, 2, 3, 4, 5} {
 			t := uint8(0x03)
 			if ram == 0 {
 				t = 0x01
@@ -37,7 +37,7 @@ func cartConfigs() []cartConfig {
 		out = append(out, cartConfig{"mbc2", 0x06, rc, 0})
 	}
 	for rc := uint8(0); rc <= 6; rc++ {
-		for _, ram := range []uint8{0, 2, 3} {
+		for _, ram := range []uint8{0, 1, 2, 3, 4, 5} {
 			t := uint8(0x13)
 			if ram == 0 {
 				t = 0x11
@@ -95,7 +95,7 @@ func genCartHistory(r *engine.Rand, sc *engine.Scenario, c cartConfig, n int, ra
 		return uint16(r.Intn(0x8000))
 	}
 	val := func() uint8 {
-		switch r.Intn(6) {
+		switch r.Intn(8) {
 		case 0:
 			return 0x0a
 		case 1:
@@ -106,6 +106,13 @@ func genCartHistory(r *engine.Rand, sc *engine.Scenario, c cartConfig, n int, ra
 			return 0
 		case 4:
 			return uint8(r.Intn(16)) // every select value of a 4-bit register (MBC3: RAM banks, clock registers, unmapped 0D-0F)
+		case 5:
+			// one bit set, or all but one: the edges of every register width (bit 7 of a 7-bit bank, ...)
+			v := uint8(1) << uint(r.Intn(8))
+			if r.Bool() {
+				v = ^v
+			}
+			return v
 		}
 		return r.Byte()
 	}
@@ -120,8 +127,25 @@ func genCartHistory(r *engine.Rand, sc *engine.Scenario, c cartConfig, n int, ra
 		}
 		return 0xa000 + uint16(r.Intn(0x2000))
 	}
+	dmaEvery := 0
+	if r.Chance(1, 3) {
+		// the OAM DMA engine reads from the cartridge (or elsewhere) while the history goes on: the
+		// controller registers and the RAM are the CPU's whatever the DMA engine is doing
+		dmaEvery = r.Range(2, 12)
+	}
 	for i := 0; i < n; i++ {
 		at += uint64(r.Range(1, 4))
+		if dmaEvery > 0 && i%dmaEvery == 0 {
+			pg := uint8(r.Intn(0x80))
+			switch r.Intn(4) {
+			case 0:
+				pg = uint8(0xa0 + r.Intn(0x20))
+			case 1:
+				pg = uint8(0xc0 + r.Intn(0x20))
+			}
+			sc.Events = append(sc.Events, engine.Event{At: at, K: "bus_w", A: 0xff46, V: pg, S: "dma"})
+			at += uint64(r.Range(1, 3))
+		}
 		k := r.Intn(10)
 		if ramFocus {
 			switch {
@@ -240,6 +264,12 @@ func executeCart(id string, sc *engine.Scenario, focus string) *engine.Result {
 			rtcSel := kind == "mbc3" && ct.RamOn && ct.RamB >= 8
 			switch ev.K {
 			case "bus_w":
+				if ev.A == 0xff46 {
+					m.Write(ev.A, ev.V)
+					res.Fault("dma_start")
+					res.Probe("dma_from_cartridge_space_in_flight")
+					continue
+				}
 				if ev.A >= 0xa000 && rtcSel {
 					// not a RAM access (the clock registers are C10's business), but it is performed:
 					// whatever it does, it must leave every RAM bank as it was
